@@ -229,7 +229,7 @@ PROPS["C06"] = {
     "level_note": "Depends on the decoder only for the oracle-built streams; encoder-built streams are used only if they round-trip unfaulted.",
     "stages": [
         pbt("exhaustive_faults", "pbt_C06", mode="enum", quick={}, thorough={"timeout": 14400}),
-        pbt("random_faults", "pbt_C06", quick={"cases": 4500, "size": 100, "shards": 8},
+        pbt("random_faults", "pbt_C06", quick={"cases": 9000, "size": 100, "shards": 8},
             thorough={"cases": 100000, "size": 200, "shards": 16}),
     ],
 }
@@ -351,7 +351,7 @@ PROPS["C11"] = {
     "level_note": "Trusted: the field table in harness/common/fields.h (bit positions of overlapping views).",
     "stages": [
         pbt("exhaustive_values", "pbt_C11", mode="enum", quick={}, thorough={}),
-        pbt("setter_sequences", "pbt_C11", quick={"cases": 15000, "size": 100, "shards": 8},
+        pbt("setter_sequences", "pbt_C11", quick={"cases": 40000, "size": 100, "shards": 8},
             thorough={"cases": 400000, "size": 200, "shards": 16}),
     ],
 }
@@ -374,7 +374,7 @@ PROPS["C12"] = {
     "level_note": "The table is the trusted base; a disagreement on the unchanged tree is investigated as 'which one matches the standard'.",
     "stages": [
         pbt("layout_sweeps", "pbt_C12", mode="enum", quick={}, thorough={}),
-        pbt("generated_writes_and_images", "pbt_C12", quick={"cases": 15000, "size": 100, "shards": 8},
+        pbt("generated_writes_and_images", "pbt_C12", quick={"cases": 40000, "size": 100, "shards": 8},
             thorough={"cases": 400000, "size": 200, "shards": 16}),
     ],
 }
@@ -397,7 +397,7 @@ PROPS["C13"] = {
     "level_note": "Trusted: harness/oracle/wire.h parsers (walkCm, walkIf, header parsers).",
     "stages": [
         pbt("length_sweeps", "pbt_C13", mode="enum", quick={}, thorough={}),
-        pbt("builder_histories", "pbt_C13", quick={"cases": 9000, "size": 100, "shards": 8},
+        pbt("builder_histories", "pbt_C13", quick={"cases": 25000, "size": 100, "shards": 8},
             thorough={"cases": 400000, "size": 200, "shards": 16}),
     ],
 }
@@ -419,7 +419,7 @@ PROPS["C14"] = {
     "level_note": "Needs the read-only hook Packet::verifHasPayload() to observe payload-less packets without undefined behaviour.",
     "stages": [
         pbt("shape_product", "pbt_C14", mode="enum", quick={}, thorough={}),
-        pbt("generated_pairs", "pbt_C14", quick={"cases": 15000, "size": 100, "shards": 8},
+        pbt("generated_pairs", "pbt_C14", quick={"cases": 40000, "size": 100, "shards": 8},
             thorough={"cases": 800000, "size": 200, "shards": 16}),
     ],
 }
@@ -439,7 +439,7 @@ PROPS["C16"] = {
     "level_note": "Trusted: the map model in the driver (written from the statement).",
     "stages": [
         pbt("bounded_exhaustive", "pbt_C16", mode="enum", quick={}, thorough={"timeout": 7200}),
-        pbt("random_sequences", "pbt_C16", quick={"cases": 4500, "size": 100, "shards": 8},
+        pbt("random_sequences", "pbt_C16", quick={"cases": 9000, "size": 100, "shards": 8},
             thorough={"cases": 100000, "size": 200, "shards": 16}),
         cgf("coverage_guided", "pbt_C16", quick={"runs": 2500, "workers": 8}, thorough={"runs": 40000, "workers": 16}),
     ],
